@@ -649,7 +649,18 @@ class _Frame:
     def s_FunctionDef(self, st):
         c = Closure(st, self.env, self.I, self.file)
         c.mi = self.mi
-        self.env.set(st.name, c)
+        v = c
+        if getattr(self.I, "model_decorators", False) and st.decorator_list:
+            # opt-in: a local function decorated with a class of the repository (`@BiLinearForm def f(u, v): ...`) or with a
+            # function is what the decorator returns; functools.wraps and the like leave the function as it is
+            for d in reversed(st.decorator_list):
+                name = (dotted(d.func) if isinstance(d, ast.Call) else dotted(d)) or ""
+                if name.split(".")[-1] in ("wraps", "staticmethod", "classmethod", "lru_cache", "cache"):
+                    continue
+                dv = self.ev(d)
+                if isinstance(dv, (ClassInfo, Closure, FuncInfo, _Bound)):
+                    v = self.call(dv, [v], {}, d)
+        self.env.set(st.name, v)
 
     def s_With(self, st):
         for item in st.items:
@@ -735,6 +746,9 @@ class _Frame:
                     self.I.call_function(setter, [v], self_obj=obj)
                 else:
                     obj.attrs[name] = v
+            elif isinstance(obj, ClassInfo):
+                # a class-level variable re-bound at run time (instance counters)
+                self.I.__dict__.setdefault("_class_vars", {})[(obj.qualname, self._cv_key(obj, t.attr))] = v
             elif isinstance(obj, Closure):
                 pass  # f.__name__ = ..., f.__doc__ = ...: metadata of a generated function
             elif getattr(type(obj), "_xeval_open", False):
@@ -1275,6 +1289,9 @@ class _Frame:
         nc = self.I.repo.nested_class(obj.cls, name)
         if nc is not None:
             return nc
+        hit, v = self._class_var(obj.cls, name)
+        if hit:
+            return v
         ce, owner = self.I.repo.class_attr(obj.cls, name)
         if ce is not None:
             return self.I.eval_class_attr(owner, ce)
@@ -1286,7 +1303,25 @@ class _Frame:
             raise XRaise("AttributeError", f"'{obj.cls.name}' object has no attribute '{name}'")
         raise self.bad(f"attribute {obj.cls.name}.{attr} is not modelled", n)
 
+    @staticmethod
+    def _cv_key(ci, attr):
+        pre = "_" + ci.name.lstrip("_") + "__"
+        return attr[len(pre) - 2:] if attr.startswith(pre) else attr
+
+    def _class_var(self, ci, attr):
+        """a class-level variable re-bound at run time (`Line.__NInstance += 1`): the value stored for the class or a base"""
+        cv = self.I.__dict__.get("_class_vars")
+        if cv:
+            for c in ci.mro:
+                k = (c.qualname, self._cv_key(c, attr))
+                if k in cv:
+                    return True, cv[k]
+        return False, None
+
     def class_attr(self, ci: ClassInfo, attr, n):
+        hit, v = self._class_var(ci, attr)
+        if hit:
+            return v
         if ci.is_enum():
             mem = self.I.repo.enum_members(ci.qualname)
             if attr in mem:
@@ -2626,6 +2661,12 @@ def _py_sum(seq, start=0):
 
 def _py_isinstance(obj, cls):
     cl = cls if isinstance(cls, tuple) else (cls,)
+    if isinstance(obj, Poly) and obj.is_const():
+        obj = obj.const_value()  # a number that went through polynomial arithmetic
+    elif isinstance(obj, Rat) and obj.is_poly() and obj.as_poly().is_const():
+        obj = obj.as_poly().const_value()
+    elif isinstance(obj, XArray) and obj.ndim == 0 and obj.size == 1 and float in cl and _NpAttr("ndarray") not in cl:
+        obj = obj.data[0]
     for c in cl:
         if isinstance(c, ClassInfo):
             if c.name == "FeArray" and isinstance(obj, XArray) and (type(obj).__name__ == "XFe" or getattr(type(obj), "_is_fearray_model", False)):
@@ -2650,6 +2691,17 @@ def _py_isinstance(obj, cls):
                 return True
         elif isinstance(c, type):
             if isinstance(obj, c):
+                return True
+        elif isinstance(c, Opaque):
+            # abstract base classes of the standard library reached through an import
+            leaf = c.tag.split(".")[-1]
+            if leaf in ("Iterable", "Collection", "Sequence", "Sized", "Container") and isinstance(obj, (list, tuple, XArray, dict, set, frozenset, str, range)):
+                return True
+            if leaf in ("Mapping", "MutableMapping") and isinstance(obj, dict):
+                return True
+            if leaf in ("Number", "Real", "Rational", "Integral", "Complex") and isinstance(obj, (int, Fraction, MQ, float)) and not isinstance(obj, bool):
+                return True
+            if leaf == "Callable" and (isinstance(obj, (Closure, _Bound, FuncInfo)) or callable(obj)):
                 return True
     return False
 
